@@ -65,10 +65,9 @@ impl UserModel<'_> {
                     .cloned();
                 // If it is a spill cell we want to save the old value as None, because
                 // the value of a spill cell is determined by the anchor cell
-                let old_value = if matches!(old_value, Some(Cell::SpillCell { .. })) {
-                    None
-                } else {
-                    old_value
+                let old_value = match old_value {
+                    Some(Cell::SpillCell { s, .. }) => Some(Cell::EmptyCell { s }),
+                    other => other,
                 };
                 self.model
                     .set_user_input(sheet, row, column, label.to_string())?;
